@@ -879,6 +879,9 @@ func replay(repro map[string]any) (string, bool) {
 		for q, op := range ops {
 			obs = append(obs, fmt.Sprintf("a %s b: %s", op, e.at(q, i, j)))
 		}
+	case "operand-stability":
+		e.checkStable(c, i, j)
+		obs = append(obs, "every operator twice on the same operand objects, then each operand against a fresh copy")
 	case "transitivity":
 		e.checkTransitive(c, i, j, k)
 		obs = append(obs, fmt.Sprintf("a<b: %s, b<c: %s, a<c: %s", e.at(opLt, i, j), e.at(opLt, j, k), e.at(opLt, i, k)))
